@@ -20,7 +20,8 @@ RULE = ("cases = (kind, subtype, array, provenance form); every polygon is a val
         "patterns is applied, mixed with degenerate rings (zero area, <3 vertices, empty), missing "
         "elements first/last/everywhere and arrays sliced at non-zero offsets; non-trivial = array "
         "with at least one ring of non-zero area; distinct = hash of (kind, subtype, elements)")
-ASSUMPTIONS = ["orientation clauses on closed rings; intersection-invariance and area clauses on "
+ASSUMPTIONS = ["orientation and idempotence clauses on closed rings (rings stored without their closing vertex, and int64 "
+               "coordinates beyond 2**53, get the structural clauses only: vertices, counts, missing mask, input untouched); intersection-invariance and area clauses on "
                "polygons whose holes are wound opposite to their shell (valid polygons)",
                "ring rotation is accepted (the statement promises the cyclic order only)"]
 DECIDING_COUNTERS = ["rings_checked", "idempotence_checked", "immutability_checked"]
@@ -28,6 +29,8 @@ DECIDING_COUNTERS = ["rings_checked", "idempotence_checked", "immutability_check
 
 def shards(tier, seed):
     subs = A.pick_subtypes(tier, seed, n_quick=3)
+    if "int64" not in subs:
+        subs = subs + ["int64"]          # the only subtype whose values a float64 detour can change
     n = 80 if tier == "quick" else 900
     out = []
     for kind in ("polygon", "multipolygon"):
@@ -78,6 +81,13 @@ def gen_polygon(rng, patterns):
         # a zero-area (collinear, closed) extra hole keeps the polygon's point set
         a = og.pts_of(rings[0])[0]
         out.append(gg.flat([a, a, a]))
+    if rng.random() < 0.12:
+        # rings stored without their closing vertex: nothing is claimed about their direction, but their
+        # vertices, like everybody's, stay in the same cyclic order or its reverse
+        for j in range(len(out)):
+            if len(out[j]) >= 10 and rng.random() < 0.7:
+                out[j] = out[j][:-2]
+        valid = False
     return out, valid
 
 
@@ -132,12 +142,18 @@ def gen_case(rng, kind, subtype, patterns):
         k_ = 65535 // (hi - lo)
         els = [gg.transform(e, kind, k_, -32768 - lo * k_, -32768 - lo * k_) for e in els0]
         s, tx, ty = k_, -32768 - lo * k_, -32768 - lo * k_
+    huge = 0
+    if subtype == "int64" and rng.random() < 0.2:
+        # coordinates beyond 2**53 (not representable as float64): only the structural clauses apply
+        huge = int(rng.choice([2 ** 53 + 1, 2 ** 60 + 3, -2 ** 53 - 21]))
+        els = [gg.transform(e, kind, 1, huge, huge) for e in els]
+        valid = [False] * len(valid)
     down = 0
     if subtype == "float64" and rng.random() < 0.3:
         # exact dyadic down-scaling: tiny rings (areas down to ~1e-12) keep a definite orientation
         down = int(rng.integers(8, 22))
         els = [gg.transform(e, kind, 2.0 ** -down, 0.0, 0.0) for e in els0]
-    return {"kind": kind, "subtype": subtype, "elements": els, "valid": valid, "down": down,
+    return {"kind": kind, "subtype": subtype, "elements": els, "valid": valid, "down": down, "huge": huge,
             "box_lohi": [lo * s + tx, hi * s + tx, lo * s + ty, hi * s + ty],
             "formseed": int(rng.integers(2 ** 31))}
 
@@ -209,7 +225,7 @@ def check_case(ctx, case):
             rec_raise(f"call", out, tb)
             continue
         ctx.case([kind, subtype, els, form], nontrivial=nontrivial)
-        ctx.sig(kind, subtype, form, "tiny" if case.get("down") else "-", "missing-last" if (els and els[-1] is None) else
+        ctx.sig(kind, subtype, form, "tiny" if case.get("down") else "huge" if case.get("huge") else "-", "missing-last" if (els and els[-1] is None) else
                 ("missing-first" if (els and els[0] is None) else "-"))
         # input untouched
         ctx.count("immutability_checked")
@@ -249,7 +265,7 @@ def check_case(ctx, case):
                                   expected=r0, observed=r1, case=case)
                     bad = True
                     break
-                if og.is_closed(r1) and len(r1) >= 8:
+                if og.is_closed(r1) and len(r1) >= 8 and not case.get("huge"):
                     a2 = og.ring_area2([og.to_exact(v) for v in r1])
                     role = "shell" if ri == 0 else "hole"
                     if a2 != 0 and ((role == "shell") != (a2 > 0)):
@@ -273,7 +289,13 @@ def check_case(ctx, case):
         else:
             ctx.count("idempotence_checked")
             o2 = gg.pylist(out2)
-            if not all(gg.same_value(a, b) for a, b in zip(o2, o)) or len(o2) != len(o):
+            if case.get("huge"):
+                ctx.count("huge_coordinate_arrays_checked")
+            elif len(o2) != len(o) or not all(
+                    gg.same_value(a, b) for a, b, e_ in zip(o2, o, vals)
+                    # (rings stored without their closing vertex have no defined direction: the second
+                    #  call may turn them again; nothing is claimed for elements that hold one)
+                    if all(og.is_closed(r_) or len(r_) < 6 for _, _, r_ in rings_of(kind, e_))):
                 zero = any(og.is_closed(r) and len(r) >= 6 and og.ring_area2([og.to_exact(v) for v in r]) == 0
                            for e in els for _, _, r in rings_of(kind, e))
                 ctx.violation("idempotence",
